@@ -22,6 +22,8 @@ import (
 	"testing"
 	"time"
 
+	"github.com/gorilla/websocket"
+
 	"github.com/safing/portbase/api"
 	"github.com/safing/portbase/database"
 	_ "github.com/safing/portbase/database/dbmodule"
@@ -67,6 +69,9 @@ func backendByName(name string) *backend {
 	return nil
 }
 
+// apiAddr is the loopback address the api module listens on (the websocket transport of the database API is there).
+var apiAddr string
+
 var (
 	internalDB = database.NewInterface(&database.Options{Local: true, Internal: true})
 	panicCh    = make(chan *modules.ModuleError, 256)
@@ -88,7 +93,8 @@ func run(m *testing.M) int {
 		fmt.Fprintf(os.Stderr, "c13: dataroot: %s\n", err)
 		return 2
 	}
-	api.SetDefaultAPIListenAddress(freeLoopbackAddr())
+	apiAddr = freeLoopbackAddr()
+	api.SetDefaultAPIListenAddress(apiAddr)
 	if lvl := os.Getenv("VERIF_C13_LOG"); lvl != "" {
 		log.SetLogLevel(log.ParseLevel(lvl))
 	} else {
@@ -170,6 +176,12 @@ type conn struct {
 	replies    []reply
 	sent       int
 	sendYields int
+
+	// websocket transport: messages go out over ws, a reader goroutine hands every frame to send
+	ws      *websocket.Conn
+	wsWrite sync.Mutex
+	wsDone  chan struct{}
+	wsErr   error
 
 	actions []*sendAction // writes to perform inside send
 	okCount map[string]int
@@ -280,6 +292,17 @@ func (c *conn) handle(msg []byte) {
 	c.mu.Lock()
 	c.sent++
 	c.mu.Unlock()
+	if c.ws != nil {
+		c.wsWrite.Lock()
+		err := c.ws.WriteMessage(websocket.BinaryMessage, msg)
+		c.wsWrite.Unlock()
+		if err != nil {
+			c.mu.Lock()
+			c.wsErr = err
+			c.mu.Unlock()
+		}
+		return
+	}
 	c.dbapi.Handle(msg)
 }
 
